@@ -77,6 +77,8 @@ class ScopeContext:
         )
 
     async def __aenter__(self) -> None:
+        # refuse entering the same scope object again (also after a synchronous use) before anything has changed
+        assert not self._metrics_context._metrics._finished, "ScopeContext reentrance is not allowed"  # nosec: B101  # pyright: ignore[reportPrivateUsage]
         await self._task_group_context.__aenter__()
 
         try:
